@@ -512,11 +512,18 @@ class _Interp:
         it = st.iter
         tgt = st.target
         form = None
+        start = 0
         if isinstance(it, ast.Call) and isinstance(it.func, ast.Name) and \
-                it.func.id == 'enumerate' and len(it.args) == 1 and \
+                it.func.id == 'enumerate' and len(it.args) in (1, 2) and \
                 self.ev(it.args[0], env) is DATA and \
                 isinstance(tgt, ast.Tuple) and len(tgt.elts) == 2 and \
                 all(isinstance(x, ast.Name) for x in tgt.elts):
+            if len(it.args) == 2:
+                start = self.ev(it.args[1], env)
+                if not isinstance(start, int) or isinstance(start, bool):
+                    raise AnalysisError('enumerate start is not a constant')
+            for k in it.keywords:
+                raise AnalysisError('enumerate with keywords')
             form = ('enum', tgt.elts[0].id, tgt.elts[1].id)
         elif isinstance(tgt, ast.Name) and not isinstance(it, ast.Call) and \
                 self.ev(it, env) is DATA:
@@ -556,7 +563,7 @@ class _Interp:
                 e2['__cur_int__'] = c
                 e2['__cur_bytes__'] = bytes([c])
                 if form[1]:
-                    e2[form[1]] = INDEX
+                    e2[form[1]] = INDEX if start == 0 else ('idx', start)
                 if form[2]:
                     e2[form[2]] = c
                 try:
